@@ -308,3 +308,57 @@ def per_execution_allocation(modinfo):
                 'label': 'no instance of a per-execution class is stored in shared state',
                 'verdict': 'proved' if not out else 'failed', 'detail': f'{len(out)} offending store(s)', 'lineno': None})
     return out
+
+
+@structural('C20', 'instance-state')
+def instance_state(modinfo):
+    """A write through self.X[...] / self.X.append(...) is a write to per-instance state only if some constructor of the class
+    (or of a base class) creates X for the instance (`self.X = ...` in __init__).  Otherwise X is whatever the class body or a
+    base class provides - one object shared by every instance, every connection and every thread - and the ownership argument
+    for `self` says nothing about it."""
+    reach, sites = analyse(modinfo)
+    funcs = _functions(modinfo)
+    classes = {}          # class name -> (bases, attrs assigned as self.X in __init__, attrs bound in the class body)
+    for mname in MODULES:
+        mod = modinfo.load(mname)
+        if mod is None:
+            continue
+        for node in _ast.walk(mod.tree):
+            if isinstance(node, _ast.ClassDef):
+                init_attrs, body_attrs = set(), set()
+                for st in node.body:
+                    if isinstance(st, _ast.FunctionDef) and st.name in ('__init__', '__post_init__'):
+                        for n in _ast.walk(st):
+                            if isinstance(n, (_ast.Assign, _ast.AnnAssign, _ast.AugAssign)):
+                                for t in (n.targets if isinstance(n, _ast.Assign) else [n.target]):
+                                    for x in (t.elts if isinstance(t, (_ast.Tuple, _ast.List)) else [t]):
+                                        if isinstance(x, _ast.Attribute) and isinstance(x.value, _ast.Name) and x.value.id == 'self':
+                                            init_attrs.add(x.attr)
+                    if isinstance(st, (_ast.Assign, _ast.AnnAssign)):
+                        for t in (st.targets if isinstance(st, _ast.Assign) else [st.target]):
+                            if isinstance(t, _ast.Name):
+                                body_attrs.add(t.id)
+                bases = [b.id if isinstance(b, _ast.Name) else (b.attr if isinstance(b, _ast.Attribute) else None) for b in node.bases]
+                is_dc = any('dataclass' in _ast.unparse(d) for d in node.decorator_list)
+                classes[node.name] = (bases, init_attrs | (body_attrs if is_dc else set()), body_attrs)
+
+    def created_per_instance(cls, attr, seen=()):
+        if cls not in classes or cls in seen:
+            return False
+        bases, init_attrs, _ = classes[cls]
+        return attr in init_attrs or any(created_per_instance(b, attr, seen + (cls,)) for b in bases if b)
+    out = []
+    for qual, what, lineno, why in sites:
+        kind, _, expr = what.partition(':')
+        if kind not in ('item', 'mut') or not expr.startswith('self.'):
+            continue
+        attr = expr.split('.')[1].split('[')[0]
+        key = next((k for k in funcs if f'{k[0]}:{k[1]}' == qual), None)
+        cls = funcs[key][1] if key else None
+        if cls is None:
+            continue
+        ok = created_per_instance(cls, attr)
+        out.append({'oid': f'{qual}::instance-state:{expr}', 'kind': 'frame', 'label': f'self.{attr} mutated here is created per instance by a constructor of {cls}',
+                    'verdict': 'proved' if ok else 'failed',
+                    'detail': 'assigned as self.%s in __init__' % attr if ok else f'no __init__ of {cls} or its bases assigns self.{attr}: the mutated object is class-level / shared state', 'lineno': lineno})
+    return out
